@@ -62,15 +62,33 @@ pub struct ReportingAlloc;
 
 static LOG_FD: AtomicI32 = AtomicI32::new(2);
 
+/// Bytes currently allocated through the global allocator and the highest value seen since the
+/// last reset (`api()` resets it when a bracketed call starts): the per-call heap high-water mark.
+static LIVE: AtomicI64 = AtomicI64::new(0);
+static PEAK: AtomicI64 = AtomicI64::new(0);
+
+#[inline]
+fn heap_add(n: usize) {
+    let now = LIVE.fetch_add(n as i64, Ordering::Relaxed) + n as i64;
+    PEAK.fetch_max(now, Ordering::Relaxed);
+}
+
+#[inline]
+fn heap_sub(n: usize) {
+    LIVE.fetch_sub(n as i64, Ordering::Relaxed);
+}
+
 unsafe impl GlobalAlloc for ReportingAlloc {
     unsafe fn alloc(&self, layout: Layout) -> *mut u8 {
         let p = System.alloc(layout);
         if p.is_null() && layout.size() > 0 {
             report_oom(layout.size());
         }
+        heap_add(layout.size());
         p
     }
     unsafe fn dealloc(&self, ptr: *mut u8, layout: Layout) {
+        heap_sub(layout.size());
         System.dealloc(ptr, layout);
     }
     unsafe fn alloc_zeroed(&self, layout: Layout) -> *mut u8 {
@@ -78,12 +96,18 @@ unsafe impl GlobalAlloc for ReportingAlloc {
         if p.is_null() && layout.size() > 0 {
             report_oom(layout.size());
         }
+        heap_add(layout.size());
         p
     }
     unsafe fn realloc(&self, ptr: *mut u8, layout: Layout, new_size: usize) -> *mut u8 {
         let p = System.realloc(ptr, layout, new_size);
         if p.is_null() && new_size > 0 {
             report_oom(new_size);
+        }
+        if new_size >= layout.size() {
+            heap_add(new_size - layout.size());
+        } else {
+            heap_sub(layout.size() - new_size);
         }
         p
     }
@@ -208,17 +232,37 @@ pub fn api<T>(label: &'static str, f: impl FnOnce() -> T) -> T {
         SLOT0_LABEL_LEN.store(label.len(), Ordering::Relaxed);
     }
     slot.active.store(CALL_SEQ.fetch_add(1, Ordering::Relaxed), Ordering::Release);
-    struct Guard<'a>(&'a Slot, i32, i64);
+    struct Guard<'a>(&'a Slot, i32, i64, i64);
     impl Drop for Guard<'_> {
         fn drop(&mut self) {
             self.0.active.store(0, Ordering::Release);
             let d = clock_ns(self.1) - self.2;
             MAX_CALL_NS.fetch_max(d, Ordering::Relaxed);
             TOTAL_CALLS.fetch_add(1, Ordering::Relaxed);
+            let grown = (PEAK.load(Ordering::Relaxed) - self.3).max(0);
+            LAST_CALL_HEAP.with(|c| c.set(grown as u64));
+            MAX_CALL_HEAP.fetch_max(grown, Ordering::Relaxed);
         }
     }
-    let _g = Guard(slot, clk, start);
+    // per-call heap high-water mark (meaningful for single-threaded workloads: the counters are process-wide)
+    let live0 = LIVE.load(Ordering::Relaxed);
+    PEAK.store(live0, Ordering::Relaxed);
+    let _g = Guard(slot, clk, start, live0);
     f()
+}
+
+thread_local! {
+    static LAST_CALL_HEAP: std::cell::Cell<u64> = const { std::cell::Cell::new(0) };
+}
+static MAX_CALL_HEAP: AtomicI64 = AtomicI64::new(0);
+
+/// Heap growth (bytes above the level at entry) of the most recent `api()` bracket on this thread.
+pub fn last_call_heap() -> u64 {
+    LAST_CALL_HEAP.with(std::cell::Cell::get)
+}
+
+pub fn max_call_heap_mib() -> i64 {
+    MAX_CALL_HEAP.load(Ordering::Relaxed) >> 20
 }
 
 pub fn max_call_ms() -> i64 {
@@ -599,6 +643,7 @@ impl Ctx {
     pub fn finish(&mut self) {
         self.counters.insert("api_calls".into(), TOTAL_CALLS.load(Ordering::Relaxed));
         self.counters.insert("max_call_ms".into(), max_call_ms() as u64);
+        self.counters.insert("max_call_heap_mib".into(), max_call_heap_mib() as u64);
         let mut s = String::from("S {\"counters\":{");
         let mut first = true;
         for (k, v) in &self.counters {
